@@ -93,6 +93,7 @@ class ED_Solver(ExactSolver):
         self.ar = prob.ar
         self.C0 = prob.C0
         self.P0 = prob.P0
+        self.sound = prob.sound
         self.__prob = prob
 
     @print_when_verbose
@@ -211,6 +212,7 @@ class nED_Solver(ExactSolver):
         self.Sound_Speed = self.Speed / self.Mach
         self.C0 = prob.C0
         self.P0 = prob.P0
+        self.sound = prob.sound
         self.problem = prob.problem
         self.__prob = prob
 
@@ -334,6 +336,7 @@ class Sn_Solver(ExactSolver):
         self.VEF = np.interp(self.x, prob.Sn_profile.x_RT, prob.Sn_profile.f)
         self.C0 = prob.C0
         self.P0 = prob.P0
+        self.sound = prob.sound
         self.__prob = prob
 
     @print_when_verbose
@@ -435,6 +438,7 @@ class ie_Solver(ExactSolver):
         self.SIE = self.Pressure / self.Density / (self.gamma - 1.)
         self.Sound_Speed = self.Speed / self.Mach
         self.Fe = prob.IE_profile.Fe
+        self.sound = prob.sound
         self.__prob = prob
 
     @print_when_verbose
